@@ -86,6 +86,16 @@ HISTORY = {
     "C08-5": ("caught by C16 only (round 3)", ""),
     "C09-5": ("missed (round 3)", "C09 sql-scope/*/key-representation (OpenMLS tables bound to the MlsCodec-serialised id, MDK tables to the raw id)"),
     "C19-2": ("caught by C09/C12 only", "C19 one-critical-section: only the group-existence pre-check is exempt on SQLite"),
+    "C10-5": ("caught by C09 only (round 3)", ""),
+    "C12-5": ("missed (round 3)", "C12 savepoint names agree across the bracket (SAVEPOINT / RELEASE / ROLLBACK TO name the same savepoint)"),
+    "C13-5": ("caught (round 3; the same one-token change as C13-3, produced independently)", ""),
+    "C14-5": ("caught (round 3)", ""),
+    "C15-5": ("missed (round 3)", "C15 key-package-bound/refuses/i-tag-vs-hash-ref: the deciding comparison is a whole-value (in)equality of byte strings, not an element-wise comparison over zip() (prefix acceptance)"),
+    "C16-5": ("missed (round 3)", "C16 preview-gates-writes / C06 refused-event-writes `storage-refusal-after-write`: argument-validation refusals of the storage impls after the first write must repeat an earlier check on the same data with a bound at least as strict (both backends) — the rule that found F19 on the unchanged tree"),
+    "C17-5": ("caught (round 3)", ""),
+    "C18-5": ("caught (round 3)", ""),
+    "C19-5": ("caught (round 3)", ""),
+    "C20-5": ("missed (round 3)", "C20 rollback-discards-suffix/<fn>/all-but-consumed: the release loop passes over exactly the consumed entry (guards on the enumerate index and skip() evaluated for the first indices)"),
 }
 rows = ["| id | change (needs) | first | now caught by | strengthened |", "|----|----------------|-------|---------------|--------------|"]
 sd = os.path.join(VERIF, "seeded")
